@@ -22,6 +22,7 @@ type datalog struct {
 	curSeg        *segment
 	segments      [maxSegments]*segment
 	maxSequenceID uint64
+	closed        bool
 }
 
 func openDatalog(opts *Options) (*datalog, error) {
@@ -197,6 +198,10 @@ func (dl *datalog) del(key []byte) error {
 }
 
 func (dl *datalog) writeRecord(data []byte, rt recordType) (uint16, uint32, error) {
+	if dl.closed {
+		// Don't create new segments in a directory that the database has let go of.
+		return 0, 0, os.ErrClosed
+	}
 	if dl.curSeg.meta.Full || dl.curSeg.size+int64(len(data)) > int64(dl.opts.maxSegmentSize) {
 		// Current segment is full, create a new one.
 		// Sync only reaches the current segment - commit the full one before leaving it.
@@ -249,6 +254,7 @@ func (dl *datalog) close() error {
 			return err
 		}
 	}
+	dl.closed = true
 	return nil
 }
 
